@@ -872,6 +872,48 @@ def stores_to(site):
     return out
 
 
+def _add_terms(e):
+    e = deep_strip(e)
+    if e[0] == "bin" and e[1] == "Add":
+        return _add_terms(e[2]) + _add_terms(e[3])
+    return [e]
+
+
+def _is_match_offset(e):
+    """(match_indices(..).next() as Some).0.0: the byte offset of a match in the searched string"""
+    x = e
+    while x[0] == "field" and x[2] == "0":
+        x = deep_strip(x[1])
+    if x is e or x[0] != "as" or x[2] != "Some":
+        return False
+    c = deep_strip(x[1])
+    return c[0] == "call" and c[1].endswith("Iterator::next") and any(y[0] == "call" and y[1] == "core::str::<impl str>::match_indices" for y in walk(c))
+
+
+def _offset_term(e, pt):
+    if e[0] == "const" and e[1] == "int" and isinstance(e[2], int) and 0 <= e[2] <= int(pt.get("max_const", 16)):
+        return True
+    if _is_match_offset(e):
+        return True
+    if e[0] == "call" and e[1] in ("alloc::string::String::len", "core::str::<impl str>::len") and len(e[2]) == 1:
+        # the scanned name: a String started empty in this function and filled by push
+        x = deep_strip(e[2][0])
+        alts = x[1] if x[0] == "phi" else (x,)
+        ok_ = False
+        for a in alts:
+            a = deep_strip(a)
+            while a[0] == "field" or a[0] == "as":
+                a = deep_strip(a[1])
+            if a[0] == "call" and a[1] == "alloc::string::String::new":
+                ok_ = True
+            elif a[0] == "call" and (a[1].endswith("from_residual") or a[1].endswith("Try::branch")):
+                continue
+            else:
+                return False
+        return ok_
+    return False
+
+
 def match_pattern(site, pats):
     for pt in pats:
         if pt.get("kind") != site.kind or pt.get("what") != site.what:
@@ -908,6 +950,14 @@ def match_pattern(site, pats):
                 if wc[0] == "call" and wc[1] == "std::io::Write::write" and len(wc[2]) == 2 and _sig(wc[2][1]) == _sig(whole):
                     return pt
             continue
+        if "offset_sum" in pt:
+            # a sum of byte lengths of disjoint parts of one in-memory string: the offset of a match, the length of the literal
+            # matched there, the length of the name scanned right after it, the length of its terminator
+            if site.fn.path != pt.get("fn") or len(site.ops) < 2:
+                continue
+            if all(_offset_term(t_, pt) for o_ in site.ops[:2] for t_ in _add_terms(o_)) and any(_is_match_offset(t_) for o_ in site.ops[:2] for t_ in _add_terms(o_)):
+                return pt
+            continue
         if "range_bounds" in pt:
             # a str sliced with bounds that are all positions the scanner itself produced on that same string
             if site.fn.path != pt.get("fn") or len(site.ops) < 2 or _sig(site.ops[0]) != pt.get("ops0"):
@@ -927,6 +977,8 @@ def match_pattern(site, pats):
 
             def ok_bound(e):
                 if e == ("param", 2) and "arg2" in pt["range_bounds"]:
+                    return True
+                if "offset-sum" in pt["range_bounds"] and all(_offset_term(t_, pt) for t_ in _add_terms(e)) and any(_is_match_offset(t_) for t_ in _add_terms(e)):
                     return True
                 if e[0] == "call" and e[1] == "core::str::<impl str>::len" and _sig(e[2][0]) == pt.get("ops0") and "len" in pt["range_bounds"]:
                     return True
